@@ -564,6 +564,30 @@ fn bdd_cached<const P: u128, const PN: u128>(prog: &Prog, queries: &[(usize, boo
             }
         }
     }
+    // with every node's memo filled in field P: the UNcached hash (a fold with the weights it is
+    // given) of every pool entry in the other field, and in field P with other weights (1 - w), must
+    // still be the defining sum under those weights -- the memo belongs to cached_semantic_hash only
+    let wn = cx.w[Ctx::pidx(PN)].clone();
+    let flipped: rsdd::repr::WmcParams<rsdd::util::semirings::FiniteField<P>> = rsdd::repr::WmcParams::new(HashMap::from_iter((0..nv).map(|v| {
+        let (lo, hi) = cx.w[Ctx::pidx(P)][v];
+        (VarLabel::new(v as u64), (rsdd::util::semirings::FiniteField::new(hi), rsdd::util::semirings::FiniteField::new(lo)))
+    })));
+    let wflip: Vec<(u128, u128)> = cx.w[Ctx::pidx(P)].iter().map(|(lo, hi)| (*hi, *lo)).collect();
+    for (i, q) in pool.iter().enumerate() {
+        let t = spec[i] & full(nv);
+        let h = q.semantic_hash(&mapn).value();
+        let want = defining_sum(t, nv, &wn, PN);
+        if h != want {
+            cx.fails.push(format!("BDD pool entry {i}: semantic_hash in field {PN} after cached hashes in field {P} is {h}, the sum over the models is {want}"));
+            break;
+        }
+        let h2 = q.semantic_hash(&flipped).value();
+        let want2 = defining_sum(t, nv, &wflip, P);
+        if h2 != want2 {
+            cx.fails.push(format!("BDD pool entry {i}: semantic_hash in field {P} with swapped weights after cached hashes is {h2}, the sum over the models is {want2}"));
+            break;
+        }
+    }
     (out, mis)
 }
 
